@@ -4,6 +4,7 @@ import (
 	"context"
 	"fmt"
 	"net"
+	"os"
 	"sort"
 	"strings"
 	"sync"
@@ -12,6 +13,7 @@ import (
 	"github.com/enfein/mieru/v3/apis/client"
 	"github.com/enfein/mieru/v3/apis/server"
 	"github.com/enfein/mieru/v3/pkg/appctl/appctlpb"
+	mlog "github.com/enfein/mieru/v3/pkg/log"
 	"google.golang.org/protobuf/proto"
 
 	"verifsim/simnet"
@@ -239,6 +241,7 @@ func NewWorld(s *spec.RunSpec, res *spec.RunResult) (*World, error) {
 		}
 		w.clients = append(w.clients, &clientRT{idx: i, spec: c, cli: cl, node: node})
 	}
+	enableMieruLog()
 	return w, nil
 }
 
@@ -326,4 +329,16 @@ func (w *World) dial(c *clientRT, key string, udpAssoc bool) (net.Conn, error) {
 		network = "udp"
 	}
 	return c.cli.DialContext(ctx, simAddr{network, key + ".sim:80"})
+}
+
+// enableMieruLog turns mieru's own logging on (debugging aid; off by default).
+// It prints the virtual clock, so it does not disturb determinism.
+func enableMieruLog() {
+	lv := os.Getenv("VSIM_MIERU_LOG")
+	if lv == "" {
+		return
+	}
+	mlog.SetFormatter(&mlog.DaemonFormatter{})
+	mlog.SetOutput(os.Stderr)
+	mlog.SetLevel(lv)
 }
